@@ -4,6 +4,21 @@ import json, pathlib
 V = pathlib.Path(__file__).resolve().parent.parent
 ALL = [f"C{i:02d}" for i in range(1, 20)]
 CLAIMED = {
+ "C10": dict(
+   text="Coq theorems over Remote.v (a heap of node and channel objects with identities; dump/restore = the __getstate__/"
+        "__setstate__ chain; merge of a remotely executed composite step by step; submit/complete with the input lock) and Dag.v: "
+        "for every executor assignment and completion order the outputs equal the all-local run (instance of the C01 theorem); "
+        "after the merge, for every heap: parent, executor and class kept, not running, the copy's children adopted, every old IO "
+        "channel has a fresh counterpart owned by the node with the same ordered connection list, neighbours list the fresh "
+        "channel in place, the lexical path is unchanged, nothing else is touched; while a node is out every input assignment is "
+        "refused and the delivered output belongs to the inputs shown; unlocked after success and failure; the lock holds again "
+        "after a merge. Real workflows with leaf / macro / nested macro / root placements across an emulated pickle boundary "
+        "(and a few real thread/process/cloudpickle-process/instruction executors) are compared with the model on graphs reflected "
+        "from the real objects.",
+   design="13/C10", technique="Coq proofs over a heap with identities + instance of the C01 schedule theorem + differential correspondence across a pickle boundary + oracle",
+   note="The pickle round trip itself is C07's; For body construction, caches and hints are outside this layer. Full merge theorems "
+        "hold for the code after fix 0e04eb3 (S15 and three merge defects). Known finding: a workflow's inputs (its children's "
+        "channels) stay writable while the workflow itself is out on an executor."),
  "C11": dict(
    text="Coq theorems over Pull.v (get_nodes_in_data_tree, the disconnect/restore wrapper, toposort_flatten and the linear chain, "
         "run_data_tree step by step incl. relabelling, parent run with overridden starting nodes and the finally clause; depth-first "
@@ -14,8 +29,9 @@ CLAIMED = {
         "parentless nodes, workflow children and nested macro children are compared with the model and with an oracle.",
    design="13/C11", technique="Coq proofs (induction over closure fuel / stack of scopes, restoration invariants) + differential correspondence + oracle",
    note="Data values, caches and executors actually running are outside the model (oracle checks returned values). Order inside "
-        "restored connection lists is not preserved (observation, theorem C11_order_not_restored); S12 (enclosing macro emits ran "
-        "when pulled through) is a known finding until its fix is applied."),
+        "restored connection lists is not preserved (observation, theorem C11_order_not_restored). C11_nothing_downstream is full "
+        "after fix 4976e8b (S12); one known finding remains: a hand-wired `failed` handler of a failing upstream node runs during a "
+        "pull although it is outside the closure (partial theorem under the guard that failed-connections end inside the closure)."),
  "C07": dict(
    text="Coq theorems over Serial.v (the __getstate__/__setstate__ chain: channels drop connections and receivers, lexical objects "
         "drop the parent and record the detached path, runnables drop future and live executor, composites store label tuples "
